@@ -34,7 +34,7 @@ class CFG:
         """Location of a node or of its nearest ancestor that is a CFG element."""
         n = node
         while n is not None:
-            w = self.where(n.id)
+            w = self.where(n.j.get('cfgat', n.id) if hasattr(n, 'j') else n.id)
             if w is not None:
                 return w
             n = n.parent
